@@ -1,14 +1,23 @@
 """C18 — queries are pure: independent of call history, aliasing and concurrent use."""
+import contextlib
 import ctypes
 import datetime as dt
+import decimal
 import hashlib
 import json
+import locale
+import os
+import random
+import shutil
 import signal
 import struct
+import subprocess
 import sys
+import tempfile
 import threading
 import time
 import types
+import warnings
 
 import lib
 import tlegen
@@ -18,7 +27,9 @@ LEAN_TARGETS = ["PV.Props.C18"]
 RULE = ("per near-earth TLE (repo test TLEs + generated LEO sets, epoch at and off the ascending node): (1) histories of "
         "<= 10 mixed queries drawn with repetition from a per-TLE pool (get_position scalar/array, normalised or not; "
         "get_lonlatalt; get_observer_look scalar/array; get_orbit_number incl. tbus_style/as_float; get_last_an_time; "
-        "get_next_passes 1-2 h) on ONE object, every result compared byte-wise with the same query on a FRESH object; "
+        "get_next_passes 1-2 h; a new pool every 10 histories, alternately with times spread over days and with all times "
+        "within 50 minutes of one instant, the epoch or another) on ONE object, every result compared byte-wise with the same "
+        "query on a FRESH object; "
         "returned arrays and argument arrays are overwritten by the caller afterwards; (1b) aliasing histories of 2-8 "
         "consecutive array-taking queries (get_position both normalisations, get_lonlatalt, get_observer_look, and "
         "get_orbit_number which rejects arrays) that all receive ONE time-array object (datetime64 us/ms/s; the array itself "
@@ -30,7 +41,25 @@ RULE = ("per near-earth TLE (repo test TLEs + generated LEO sets, epoch at and o
         "queries that differ in the REPRESENTATION of the time argument: the first get_orbit_number of the object mostly gets a "
         "datetime64 coarser than microseconds ([s], [m], [h], [D]), later queries datetime / datetime64[us] / [ns] / [ms] / coarse "
         "units of other instants, node-time/position/sub-point/look queries before and in between, each compared byte-wise with "
-        "the same query on a FRESH object; (2) real threads under a "
+        "the same query on a FRESH object; (1d) histories of 2-8 queries mixing pass searches aimed at the ground track (they "
+        "find passes), look-angle queries over observer grids with non-finite fill values (inf, -inf, nan; method and "
+        "module-level function, float32/float64, 1-d/2-d), position queries with NaT among the times and ordinary queries; "
+        "every fresh-object reference result is computed with the process/thread state reset to what it was before the first "
+        "query of the run (numpy error modes and callback, warnings filters, decimal context, os.environ, working directory, "
+        "time zone, recursion limit, numpy print options, locale, numpy.random / random global state), every history starts "
+        "from that state, and that state (plus the thread switch interval) is read before and after EVERY call (histories, "
+        "aliasing histories, reference calls; in scheduled runs per thread and for the process): any difference is "
+        "process_state_modified; for a sample of histories (the first 2 per element set and family; thorough 6) every result "
+        "is also compared with the same query on a fresh object in a forked copy of a newly started child interpreter in "
+        "which no query has run; (1e) environment independence: every kind of query (get_position, get_lonlatalt, "
+        "get_observer_look method and module-level function, get_orbit_number, get_last_an_time, get_next_passes aimed at the "
+        "ground track) with every representation of the time argument (naive datetime, aware UTC datetime, datetime64 "
+        "[us]/[s]/[ms]/[ns]/[m], datetime64 array; first element set: all combinations, others: naive datetime + 3 drawn) on an "
+        "object built and queried under three process environments - TZ=UTC0, the run's own zone, a zone on the other side of "
+        "Greenwich (os.environ['TZ'] + time.tzset()), each with a random choice of (all of them with the run's own zone): other "
+        "working directory, TLES/PYORBITAL_CONFIG_PATH/PPP_CONFIG_DIR set to other values, LC_ALL locale if the host has "
+        "another one, decimal context precision/rounding, numpy print options, np.seterr(all=ignore|warn|call) - byte-wise "
+        "equal to the result under the run's own zone with nothing else changed; (2) real threads under a "
         "deterministic scheduler (sys.settrace, semaphores; a switch happens only before a source line of pyorbital/orbital.py): "
         "for two concurrent get_orbit_number calls ALL single pre-emption points in get_orbit_number's own frame, the first "
         "occurrence(s) of every distinct source line below it, a random sample of the rest, two-pre-emption schedules "
@@ -47,11 +76,15 @@ RULE = ("per near-earth TLE (repo test TLEs + generated LEO sets, epoch at and o
         "observed load/store sequence of orbit_elements.an_time/an_period (threads and sequential histories) must be exactly "
         "the trace PV.Model.Cache produces when replayed in the observed thread order (driver op c18vis), the store "
         "statement used must be the one a fresh call uses, and every stored/loaded value must be the canonical one; "
-        "distinct = (tle, history) or (tle, queries, plan) or (tle, event sequence)")
+        "distinct = (tle, history) or (tle, queries, plan) or (tle, event sequence) or (tle, environment query)")
 ASSUMPTIONS = ["the GIL makes a single attribute load/store of orbit_elements atomic; thread switches inside one bytecode or "
                "inside numpy's C code are not modelled (the scheduler switches at source-line boundaries of pyorbital/orbital.py)",
                "numpy's own purity: ufuncs and datetime arithmetic return the same bytes for the same input bytes and keep no "
-               "state between calls",
+               "state between calls (apart from the error handling modes of the calling thread, which are observed)",
+               "process/thread state is observed through the listed accessors (np.geterr, np.geterrcall, warnings.filters, "
+               "decimal.getcontext, os.environ, os.getcwd, time.tzname/timezone, sys.getrecursionlimit, np.get_printoptions, "
+               "locale.setlocale, the global numpy.random/random state); state outside this list is covered only by the sampled "
+               "comparison with a child interpreter",
                "bit-identity of numerical results is compared on the sampled histories/schedules, not proved; the theorems are "
                "about the cache protocol (which loads/stores happen, in which order, with which values)",
                "a run is replayed in the model by the thread order of its load/store events; that the silent computations in "
@@ -88,11 +121,14 @@ _QUIET = []
 
 def _mods():
     if not _QUIET:
-        import warnings
         # fill values / NaT in the argument grids make numpy warn (overflow, invalid value); outcomes are compared anyway
         warnings.filterwarnings("ignore", category=RuntimeWarning, module=r"pyorbital\..*")
+        # an aware (UTC) datetime converted by numpy: "no explicit representation of timezones available"
+        warnings.filterwarnings("ignore", category=UserWarning, message="no explicit representation of timezones.*")
         _QUIET.append(True)
     from pyorbital import orbital, astronomy, tlefile
+    if BASE is None:
+        _set_base()                                    # the state of the process before the first query of this run
     return orbital, astronomy, tlefile
 
 
@@ -179,6 +215,213 @@ def mod_diff(a, b):
     return sorted("%s.%s" % mk for mk in set(da) | set(db) if da.get(mk) != db.get(mk))
 
 
+# ---------------------------------------------------------------- process / thread level state
+# A result that "depends only on the TLE and the arguments" cannot depend on state of the process or of the calling
+# thread, and a query that CHANGES such state makes every later query (on any object) history dependent.  The state
+# below is read before and after every call; the fresh-object reference results are computed with it reset to what it
+# was before the first query of the run.
+BASE = None
+
+
+def _sha(x):
+    return hashlib.sha1(repr(x).encode()).hexdigest()[:16]
+
+
+def thread_state():
+    """the part of the state that belongs to the calling thread (numpy error handling, decimal context)"""
+    np = _np()
+    return {"numpy error mode (np.geterr)": repr(sorted(np.geterr().items())),
+            "numpy error callback (np.geterrcall)": repr(np.geterrcall()),
+            "decimal context": repr(decimal.getcontext())}
+
+
+def proc_state():
+    """process- and thread-level state no query may leave changed"""
+    np = _np()
+    st = thread_state()
+    nprs = np.random.get_state()
+    raw = getattr(os.environ, "_data", None)           # (CPython keeps the encoded mapping there; hashed without decoding it)
+    st.update({
+        "warnings filters": _sha(warnings.filters),
+        "os.environ": hash(frozenset(raw.items())) if isinstance(raw, dict) else _sha(sorted(os.environ.items())),
+        "current working directory": os.getcwd(),
+        "time zone (time.tzname/timezone/altzone/daylight)": repr((time.tzname, time.timezone, time.altzone, time.daylight)),
+        "recursion limit": sys.getrecursionlimit(),
+        "thread switch interval": sys.getswitchinterval(),
+        "numpy print options": repr(sorted(np.get_printoptions().items())),
+        "numpy.random global state": (hash(nprs[1].tobytes()),) + tuple(nprs[2:]),
+        "random global state": hash(random.getstate()),
+        "locale": locale.setlocale(locale.LC_ALL),
+    })
+    return st
+
+
+def state_diff(a, b):
+    return sorted(k for k in set(a) | set(b) if a.get(k) != b.get(k))
+
+
+def state_change_text(a, b):
+    out = []
+    for k in state_diff(a, b):
+        va, vb = str(a.get(k)), str(b.get(k))
+        out.append("%s: %s -> %s" % (k, va, vb) if len(va) + len(vb) < 400 else k)
+    return "; ".join(out)
+
+
+def capture():
+    """the restorable part of the state (objects, not fingerprints)"""
+    np = _np()
+    return {"err": np.geterr(), "errcall": np.geterrcall(), "filters": list(warnings.filters),
+            "decimal": decimal.getcontext().copy(), "environ": dict(os.environ), "cwd": os.getcwd(),
+            "reclimit": sys.getrecursionlimit(), "printopts": np.get_printoptions(), "locale": locale.setlocale(locale.LC_ALL),
+            "nprandom": np.random.get_state(), "random": random.getstate()}
+
+
+def reinstate(s):
+    np = _np()
+    np.seterr(**s["err"])
+    if np.geterrcall() is not s["errcall"]:
+        np.seterrcall(s["errcall"])
+    if warnings.filters != s["filters"]:
+        warnings.filters[:] = s["filters"]
+        getattr(warnings, "_filters_mutated", getattr(warnings, "_filters_mutated_lock_held", lambda: None))()
+    decimal.setcontext(s["decimal"].copy())
+    if dict(os.environ) != s["environ"]:
+        for k in list(os.environ):
+            if k not in s["environ"]:
+                del os.environ[k]
+        for k, v in s["environ"].items():
+            if os.environ.get(k) != v:
+                os.environ[k] = v
+    time.tzset()
+    if os.getcwd() != s["cwd"]:
+        os.chdir(s["cwd"])
+    if sys.getrecursionlimit() != s["reclimit"]:
+        sys.setrecursionlimit(s["reclimit"])
+    if np.get_printoptions() != s["printopts"]:
+        np.set_printoptions(**s["printopts"])
+    if locale.setlocale(locale.LC_ALL) != s["locale"]:
+        locale.setlocale(locale.LC_ALL, s["locale"])
+    np.random.set_state(s["nprandom"])
+    random.setstate(s["random"])
+
+
+def _set_base():
+    global BASE
+    BASE = capture()
+
+
+@contextlib.contextmanager
+def pristine():
+    """the state of the process as it was before the first query of the run (for reference results); whatever the
+    history under examination made of it comes back afterwards"""
+    now = capture()
+    reinstate(BASE)
+    try:
+        yield
+    finally:
+        reinstate(now)
+
+
+# ---------------------------------------------------------------- the environment a pure function must ignore
+ZONES_EAST = ["JST-9", "<+0545>-5:45", "CET-1CEST,M3.5.0,M10.5.0/3", "NZST-12NZDT,M9.5.0,M4.1.0/3", "<+1030>-10:30"]
+ZONES_WEST = ["PST8PDT,M3.2.0,M11.1.0", "<-0930>9:30", "XYZ4", "<-03>3", "HST10"]
+OTHER_VARS = {"TLES": "/nonexistent/tles/*.tle", "PYORBITAL_CONFIG_PATH": "/nonexistent/pyorbital/etc",
+              "PPP_CONFIG_DIR": "/nonexistent/ppp"}
+LOCALES = ["de_DE.UTF-8", "fr_FR.UTF-8", "tr_TR.UTF-8", "C.utf8", "C.UTF-8", "POSIX"]
+SETERR_MODES = ["ignore", "warn", "call"]             # modes that do not turn a floating-point condition into an exception
+
+
+def _noop_errcall(kind, flag):
+    return None
+
+
+def usable_locale():
+    """a locale other than the current one that this host can switch to (None: there is none)"""
+    cur = locale.setlocale(locale.LC_ALL)
+    for name in LOCALES:
+        try:
+            locale.setlocale(locale.LC_ALL, name)
+        except locale.Error:
+            continue
+        changed = locale.setlocale(locale.LC_ALL) != cur
+        locale.setlocale(locale.LC_ALL, cur)
+        if changed:
+            return name
+    return None
+
+
+def own_zone():
+    return (BASE or {}).get("environ", os.environ).get("TZ") or "UTC0"
+
+
+def gen_envs(rng):
+    """three process environments: UTC, the run's own zone, a zone on the other side of Greenwich (two when the run's own
+    zone is UTC), each with a random choice of the other things a pure function must ignore"""
+    _mods()
+    own = own_zone()
+    west_of_utc = time.timezone > 0                    # the run's own zone (no query has changed it: checked)
+    other = rng.choice(ZONES_EAST if west_of_utc else ZONES_WEST)
+    zones = ["UTC0", own, other]
+    if time.timezone == 0 and not time.daylight:
+        zones = ["UTC0", rng.choice(ZONES_EAST), rng.choice(ZONES_WEST)]
+    loc = usable_locale()
+    envs = []
+    for i, z in enumerate(zones):
+        full = i == 1                                  # the run's own zone: everything else changed
+        envs.append({"tz": z,
+                     "cwd": full or rng.random() < 0.5,
+                     "vars": full or rng.random() < 0.5,
+                     "locale": loc if (full or rng.random() < 0.5) else None,
+                     "decimal_prec": rng.choice([3, 7, 50]) if (full or rng.random() < 0.5) else None,
+                     "printopts": full or rng.random() < 0.5,
+                     "seterr": rng.choice(SETERR_MODES) if (full or rng.random() < 0.5) else None})
+    return envs
+
+
+@contextlib.contextmanager
+def under_env(env):
+    """the process environment changed as described by env (JSON-able), restored afterwards"""
+    np = _np()
+    _mods()
+    saved = capture()
+    tmp = None
+    try:
+        if env.get("tz"):
+            os.environ["TZ"] = env["tz"]
+            time.tzset()
+        if env.get("vars"):
+            os.environ.update(OTHER_VARS)
+        if env.get("cwd"):
+            tmp = tempfile.mkdtemp(prefix="pv-c18-cwd-")
+            os.chdir(tmp)
+        if env.get("locale"):
+            try:
+                locale.setlocale(locale.LC_ALL, env["locale"])
+                os.environ["LC_ALL"] = env["locale"]
+            except locale.Error:
+                pass
+        if env.get("decimal_prec"):
+            decimal.getcontext().prec = int(env["decimal_prec"])
+            decimal.getcontext().rounding = decimal.ROUND_DOWN
+        if env.get("printopts"):
+            np.set_printoptions(precision=2, threshold=2, edgeitems=1, suppress=True, floatmode="fixed", linewidth=40)
+        if env.get("seterr"):
+            np.seterr(all=env["seterr"])
+            if env["seterr"] == "call":
+                np.seterrcall(_noop_errcall)
+            warnings.simplefilter("ignore", RuntimeWarning)    # 'warn' on underflow etc.: a warning, not an outcome
+        yield
+    finally:
+        reinstate(saved)
+        if tmp:
+            shutil.rmtree(tmp, ignore_errors=True)
+
+
+def env_text(env):
+    return ", ".join("%s=%s" % (k, env[k]) for k in sorted(env) if env[k] not in (None, False))
+
+
 # ---------------------------------------------------------------- queries (JSON-able descriptors)
 def new_orbital(tle):
     orbital = _mods()[0]
@@ -194,8 +437,10 @@ def _times(q, epoch):
             t[i % len(t)] = np.datetime64("NaT")
         return t.reshape(q["shape"]) if q.get("shape") else t
     t = epoch + np.timedelta64(us[0], "us")
-    if q["tk"] == "py":
+    if q["tk"] == "py":                                # a naive datetime.datetime ("assumed to be UTC")
         return t.astype(dt.datetime)
+    if q["tk"] == "pyutc":                             # an aware one, in UTC
+        return t.astype(dt.datetime).replace(tzinfo=dt.timezone.utc)
     if q.get("unit"):                                  # the caller's clock resolution: datetime64[s], [m], [h], [ms], [ns] ...
         t = t.astype("datetime64[%s]" % q["unit"])
     return t
@@ -242,9 +487,12 @@ def qkey(q):
     return json.dumps(q, sort_keys=True)
 
 
-def gen_pool(rng):
-    """A small pool of distinct queries; histories draw from it with repetition."""
+def gen_pool(rng, centre=None):
+    """A small pool of distinct queries; histories draw from it with repetition.  centre (microseconds after the epoch):
+    all query times lie within 50 minutes of it (queries of one revolution, as a time-keyed memo would need)."""
     def us(lo, hi):
+        if centre is not None:
+            return centre + rng.randrange(-3000 * 10 ** 6, 3000 * 10 ** 6)
         return rng.randrange(int(lo * 1e6), int(hi * 1e6))
     day = 86400
     pool = []
@@ -267,21 +515,23 @@ def gen_pool(rng):
     return pool
 
 
-FILLS = [-999.0, 1e30, 9999.0, float("nan"), -1e30, 361.0]
+FILLS = [-999.0, 1e30, 9999.0, float("nan"), -1e30, 361.0, float("inf"), float("-inf")]
+NONFINITE = [float("inf"), float("-inf"), float("nan"), float("inf")]
 
 
-def fill_grid(rng, n, lo, hi, nfill):
+def fill_grid(rng, n, lo, hi, nfill, fills=None):
     """valid coordinates with a few fill values (off-earth pixels of a swath product) among them"""
     vals = [rng.uniform(lo, hi) for _ in range(n)]
     for i in rng.sample(range(n), min(n, nfill)):
-        vals[i] = rng.choice(FILLS)
+        vals[i] = rng.choice(fills or FILLS)
     return vals
 
 
-def fill_queries(rng):
+def fill_queries(rng, fills=None):
     """look-angle queries (method and module-level function) on float32/float64, 1-d/2-d observer grids that contain
-    fill values, and array-time queries with NaT among the times; what they return for those pixels is compared like any
-    other result (used vs fresh object), the argument arrays must come back byte-identical"""
+    fill values (finite ones, inf, -inf, nan), and array-time queries with NaT among the times; what they return for
+    those pixels is compared like any other result (used vs fresh object), the argument arrays must come back
+    byte-identical"""
     day = 86400
     out = []
     for m in ("get_observer_look", "mod_get_observer_look"):
@@ -290,8 +540,9 @@ def fill_queries(rng):
         tk = rng.choice(["np", "arr", "arr"])
         q = {"m": m, "tk": tk, "us": [rng.randrange(-day * 10 ** 6, day * 10 ** 6) for _ in range(n if tk == "arr" else 1)],
              "dtype": rng.choice(["f4", "f8"]), "shape": shape,
-             "lon": fill_grid(rng, n, -180, 180, rng.randrange(1, 3)), "lat": fill_grid(rng, n, -90, 90, rng.randrange(0, 3)),
-             "alt": fill_grid(rng, n, 0, 3, rng.randrange(0, 2))}
+             "lon": fill_grid(rng, n, -180, 180, rng.randrange(1, 3), fills),
+             "lat": fill_grid(rng, n, -90, 90, rng.randrange(0, 3), fills),
+             "alt": fill_grid(rng, n, 0, 3, rng.randrange(0, 2), fills)}
         if tk == "arr" and rng.random() < 0.3:
             q["nat"] = [rng.randrange(0, n)]
         if m == "mod_get_observer_look":
@@ -360,18 +611,27 @@ class Sat:
         k = qkey(q)
         if k not in self.refs:
             m0 = module_state()
-            try:
-                def run():
-                    o = new_orbital(self.tle)
-                    return call(o, q, mkargs(q, self.epoch))
-                r = _guarded(run)
-                self.refs[k] = (fp(r), short(r))
-            except _Timeout:
-                self.refs[k] = None
+            # the reference is computed in the state the process had before the first query of the run: whatever the
+            # histories run so far (on this or any other object, in this thread) have left behind is set aside
+            with pristine():
+                p0 = proc_state()
+                try:
+                    def run():
+                        o = new_orbital(self.tle)
+                        return call(o, q, mkargs(q, self.epoch))
+                    r = _guarded(run)
+                    self.refs[k] = (fp(r), short(r))
+                except _Timeout:
+                    self.refs[k] = None
+                p1 = proc_state()
             m1 = module_state()
+            case = {"kind": "history", "tle": list(self.tle), "hist": [q], "index": 0}
             if m1 != m0:
-                PENDING.append(("module_state_modified", {"kind": "history", "tle": list(self.tle), "hist": [q], "index": 0},
+                PENDING.append(("module_state_modified", case,
                                 "changed: " + ", ".join(mod_diff(m0, m1)), "module tables unchanged", q["m"]))
+            if p1 != p0 and self.refs[k] is not None:
+                PENDING.append(("process_state_modified", case, "changed by %s on a fresh object: %s" % (
+                    q["m"], state_change_text(p0, p1)), "process/thread state unchanged by a query", q["m"]))
         return self.refs[k]
 
     def canon(self):
@@ -440,27 +700,40 @@ def gen_sats(ctx, n):
 
 
 # ---------------------------------------------------------------- (1) history independence
-def run_history(sat, hist, on_violation, count=None):
+def run_history(sat, hist, on_violation, count=None, got_out=None):
     """Execute hist on ONE object; report every deviation from the fresh-object result or any modified input."""
+    _mods()
+    reinstate(BASE)                                    # every history starts where a new process would
     orb = new_orbital(sat.tle)
     mod0 = module_state()
     for idx, q in enumerate(hist):
         ref = sat.fresh(q)
         if ref is None:
+            if got_out is not None:
+                got_out.append(None)
             continue
         args = mkargs(q, sat.epoch)
         a0 = fp(args)
         t0 = fp(orb.tle.__dict__)
+        p0 = proc_state()
+        timed_out = False
         try:
             res = _guarded(lambda: call(orb, q, args), 20.0)
         except _Timeout:
             res = Runaway("no result after 20 s (fresh object: %s)" % ref[1])
+            timed_out = True
+        p1 = proc_state()
         got = fp(res)
+        if got_out is not None:
+            got_out.append((got, short(res)))
         if count:
             count()
         case = {"kind": "history", "tle": list(sat.tle), "hist": hist[:idx + 1], "index": idx}
         if got != ref[0]:
             on_violation("history_dependent", case, short(res), "fresh object: " + ref[1], q["m"])
+        if p1 != p0 and not timed_out:
+            on_violation("process_state_modified", case, "changed by %s: %s" % (q["m"], state_change_text(p0, p1)),
+                         "process/thread state unchanged by a query", q["m"])
         if fp(args) != a0:
             on_violation("argument_modified", case, "arguments of %s changed by the call" % q["m"], "arguments unchanged", q["m"])
         if fp(orb.tle.__dict__) != t0:
@@ -472,6 +745,7 @@ def run_history(sat, hist, on_violation, count=None):
         # the caller now reuses its buffers and the arrays it was given
         scribble(res)
         scribble(args)
+    reinstate(BASE)
     return orb
 
 
@@ -484,6 +758,218 @@ def gen_history(rng, pool):
         else:
             hist.append(rng.choice(pool))
     return hist
+
+
+# ---------------------------------------------------------------- (1d) histories that may change the state of the thread
+def gen_state_history(rng, passes, nonfinite, pool):
+    """2-8 queries on one object: pass searches aimed at the ground track (they find passes, so the refinement of horizon
+    crossings and culmination runs), look-angle queries over observer grids with non-finite fill values and position
+    queries with NaT among the times (whether those come back as NaN entries or as an exception is decided by the
+    floating-point error handling of the calling thread), ordinary queries of the pool"""
+    hist = []
+    for _ in range(rng.randrange(2, 9)):
+        u = rng.random()
+        if u < 0.3 and passes:
+            hist.append(rng.choice(passes))
+        elif u < 0.75 and nonfinite:
+            hist.append(rng.choice(nonfinite))
+        else:
+            hist.append(rng.choice(pool))
+    return hist
+
+
+# ---------------------------------------------------------------- reference results from an interpreter nothing has touched
+def _child_main():
+    """(child interpreter) stdin: JSON [[tle, query], ...]; stdout: JSON [[fingerprint, rendering] | null, ...].
+    Every query is evaluated on a fresh object in its own forked copy of this freshly started interpreter, so no query
+    - not even an earlier reference query - has run in the process that answers it."""
+    items = json.load(sys.stdin)
+    _mods()
+    out = []
+    for tle, q in items:
+        r, w = os.pipe()
+        pid = os.fork()
+        if pid == 0:
+            rc = 0
+            try:
+                os.close(r)
+                signal.alarm(30)                       # a query that does not return: the copy is killed, no reference
+                o = new_orbital(tle)
+                res = call(o, q, mkargs(q, o.tle.epoch))
+                os.write(w, json.dumps([fp(res), short(res)]).encode())
+            except BaseException:  # noqa
+                rc = 1
+            finally:
+                os._exit(rc)
+        os.close(w)
+        buf = b""
+        while True:
+            chunk = os.read(r, 65536)
+            if not chunk:
+                break
+            buf += chunk
+        os.close(r)
+        _, status = os.waitpid(pid, 0)
+        out.append(json.loads(buf.decode()) if buf and status == 0 else None)
+    sys.stdout.write(json.dumps(out))
+    sys.stdout.flush()
+
+
+CHILD_TROUBLE = []      # why a child interpreter gave no reference results (infrastructure; reported as a note)
+
+
+def child_start(items):
+    """start a new interpreter (with the environment and working directory this run started with) that computes the
+    fresh-object results of the (tle, query) pairs; it runs beside the check, child_finish collects"""
+    _mods()
+    code = ("import sys; sys.path.insert(0, %r); import lib; from props import c18; c18._child_main()"
+            % os.path.dirname(os.path.dirname(os.path.abspath(__file__))))
+    cmd = [sys.executable] + (["-O"] if sys.flags.optimize else []) + ["-c", code]
+    try:
+        fin, fout, ferr = tempfile.TemporaryFile(), tempfile.TemporaryFile(), tempfile.TemporaryFile()
+        fin.write(json.dumps(items).encode())
+        fin.seek(0)
+        p = subprocess.Popen(cmd, stdin=fin, stdout=fout, stderr=ferr, env=dict(BASE["environ"]), cwd=BASE["cwd"])
+        fin.close()
+        return p, fout, len(items), ferr
+    except Exception as e:  # noqa  infrastructure, not a verdict
+        CHILD_TROUBLE.append("not started: %r" % (e,))
+        return None
+
+
+def child_finish(handle, timeout=300):
+    """the child's answers; None when it could not be run or did not finish (no verdict from it then)"""
+    if handle is None:
+        return None
+    p, fout, n, ferr = handle
+    try:
+        try:
+            p.wait(timeout)
+        except subprocess.TimeoutExpired:
+            p.kill()
+            p.wait()
+            CHILD_TROUBLE.append("no answer after %d s" % timeout)
+            return None
+        if p.returncode != 0:
+            ferr.seek(0)
+            CHILD_TROUBLE.append("exit status %s: %s" % (p.returncode, ferr.read().decode(errors="replace")[-600:]))
+            return None
+        fout.seek(0)
+        out = json.loads(fout.read().decode())
+        if len(out) != n:
+            CHILD_TROUBLE.append("%d answers to %d questions" % (len(out), n))
+            return None
+        return out
+    except Exception as e:  # noqa
+        CHILD_TROUBLE.append("answers unreadable: %r" % (e,))
+        return None
+    finally:
+        fout.close()
+        ferr.close()
+
+
+def child_begin(samples):
+    """samples: [(sat, hist, got)] with got[i] = (fingerprint, rendering) of query i of the history as run_history saw it
+    (None: not evaluated).  Starts the child interpreter that answers every query of those histories on a fresh object."""
+    items, index = [], {}
+    for sat, hist, got in samples:
+        for q in hist:
+            key = (tuple(sat.tle), qkey(q))
+            if key not in index:
+                index[key] = len(items)
+                items.append([list(sat.tle), q])
+    return (child_start(items) if items else None), index, samples
+
+
+def compare_with_child(begun, on_violation, count=None, note=None):
+    """Each sampled result of a history is compared with the result of the same query on a fresh object in an interpreter
+    that no query has touched."""
+    handle, index, samples = begun
+    if not index:
+        return
+    refs = child_finish(handle)
+    if refs is None:
+        if note:
+            note("reference results from a child interpreter not available; that comparison was skipped (%s)"
+                 % "; ".join(CHILD_TROUBLE[-2:]))
+        return
+    for sat, hist, got in samples:
+        for idx, q in enumerate(hist):
+            ref = refs[index[(tuple(sat.tle), qkey(q))]]
+            if ref is None or idx >= len(got) or got[idx] is None:
+                continue
+            if count:
+                count()
+            if ref[0] != json.loads(json.dumps(got[idx][0])):
+                case = {"kind": "history", "tle": list(sat.tle), "hist": hist[:idx + 1], "index": idx}
+                on_violation("history_dependent", case, got[idx][1],
+                             "fresh object in an interpreter no query has touched: " + ref[1], q["m"])
+
+
+# ---------------------------------------------------------------- (1e) one query, several process environments
+ENV_KINDS = ["get_position", "get_lonlatalt", "get_observer_look", "mod_get_observer_look", "get_orbit_number",
+             "get_last_an_time", "get_next_passes"]
+ENV_REPRS = [{"tk": "py"}, {"tk": "pyutc"}, {"tk": "np"}, {"tk": "np", "unit": "s"}, {"tk": "np", "unit": "ms"},
+             {"tk": "np", "unit": "ns"}, {"tk": "np", "unit": "m"}, {"tk": "arr"}]
+
+
+def gen_env_queries(rng, sat, full):
+    """every kind of query with every representation of its time argument: naive datetime.datetime, aware (UTC)
+    datetime.datetime, numpy.datetime64 scalars of several units, datetime64 arrays (full: all combinations, else the naive
+    datetime and three others per kind)"""
+    day = 86400 * 10 ** 6
+    out = []
+    for m in ENV_KINDS:
+        reps = ENV_REPRS if full else [ENV_REPRS[0]] + rng.sample(ENV_REPRS[1:], 3)
+        for rep in reps:
+            n = rng.randrange(2, 5) if rep["tk"] == "arr" else 1
+            if m == "get_next_passes":
+                q = dict(pass_query(rng, sat), **rep)
+                if n > 1:
+                    q["us"] = [q["us"][0] + i * 10 ** 6 for i in range(n)]
+                out.append(q)
+                continue
+            q = dict({"m": m, "us": [rng.randrange(-day, day) for _ in range(n)]}, **rep)
+            if m == "get_position":
+                q["normalize"] = rng.random() < 0.5
+            if m in ("get_observer_look", "mod_get_observer_look"):
+                q.update(lon=[rng.uniform(-180, 180) for _ in range(n)], lat=[rng.uniform(-90, 90) for _ in range(n)],
+                         alt=[rng.uniform(0, 3) for _ in range(n)])
+            if m == "mod_get_observer_look":
+                q.update(slon=[rng.uniform(-180, 180) for _ in range(n)], slat=[rng.uniform(-80, 80) for _ in range(n)],
+                         salt=[rng.uniform(300, 1500) for _ in range(n)])
+            if m == "get_orbit_number":
+                q.update(tbus=rng.random() < 0.3, as_float=rng.random() < 0.7)
+            out.append(q)
+    return out
+
+
+def eval_under(tle, q, env):
+    """(fingerprint, rendering) of q on a fresh object built and queried while the process environment is env"""
+    _mods()
+    reinstate(BASE)
+    with under_env(env):
+        def run():
+            o = new_orbital(tle)
+            return call(o, q, mkargs(q, o.tle.epoch))
+        r = _guarded(run, 20.0)
+    return fp(r), short(r)
+
+
+def run_env_case(tle, q, env, base, on_violation, count=None):
+    """the same query on a fresh object under the environment `base` (the run's own zone, nothing else changed) and under
+    `env`: the results must be the same bytes"""
+    try:
+        ref = eval_under(tle, q, base)
+        got = eval_under(tle, q, env)
+    except _Timeout:
+        return
+    if count:
+        count()
+    if got[0] != ref[0]:
+        on_violation("environment_dependent", {"kind": "env", "tle": list(tle), "q": q, "env": env, "base": base},
+                     "process environment {%s}: %s" % (env_text(env), got[1]),
+                     "as with process environment {%s}: %s" % (env_text(base), ref[1]), q["m"])
 
 
 # ---------------------------------------------------------------- (1c) the representation of the time argument
@@ -598,6 +1084,8 @@ def run_alias_history(sat, h, on_violation, count=None):
     """ONE Orbital object, ONE time-array object (and one lon/lat/alt array object) passed to consecutive queries, its
     contents changed in place by the caller in between.  Every result must equal, byte for byte, what a FRESH object
     returns for a FRESH copy of the same values; the queries must leave the buffers alone."""
+    _mods()
+    reinstate(BASE)
     orb = new_orbital(sat.tle)
     base, times, lon, lat, alt = alias_buffers(sat, h)
     for idx, step in enumerate(h["steps"]):
@@ -605,17 +1093,25 @@ def run_alias_history(sat, h, on_violation, count=None):
             alias_mutate(h, mut, base, times, lon, lat, alt)
         case = {"kind": "alias", "tle": list(sat.tle), "alias": dict(h, steps=h["steps"][:idx + 1]), "index": idx}
         try:
-            ref = _guarded(lambda: call(new_orbital(sat.tle), step, alias_args(step, times, lon, lat, alt, True)), 20.0)
+            with pristine():
+                ref = _guarded(lambda: call(new_orbital(sat.tle), step, alias_args(step, times, lon, lat, alt, True)), 20.0)
         except _Timeout:
             continue
         args = alias_args(step, times, lon, lat, alt, False)     # the very same objects every time
         b0 = fp([base, times, lon, lat, alt])
+        p0 = proc_state()
+        timed_out = False
         try:
             res = _guarded(lambda: call(orb, step, args), 20.0)
         except _Timeout:
             res = Runaway("no result after 20 s (fresh object: %s)" % short(ref))
+            timed_out = True
+        p1 = proc_state()
         if count:
             count()
+        if p1 != p0 and not timed_out:
+            on_violation("process_state_modified", case, "changed by %s: %s" % (step["m"], state_change_text(p0, p1)),
+                         "process/thread state unchanged by a query", step["m"])
         if fp(res) != fp(ref):
             on_violation("aliasing_dependent", case,
                          "%s on the re-used buffer (step %d, after %s): %s" % (
@@ -854,6 +1350,7 @@ def install_spy(orb, log, tid):
 def run_schedule(sat, queries, plan, spy=False, record_lines=False, warm=None):
     """Run the queries as concurrent threads on ONE fresh object (optionally after a warm-up history)."""
     orbital = _mods()[0]
+    reinstate(BASE)
     orb = new_orbital(sat.tle)
     for q in (warm or []):
         call(orb, q, mkargs(q, sat.epoch))
@@ -862,7 +1359,17 @@ def run_schedule(sat, queries, plan, spy=False, record_lines=False, warm=None):
     a0 = [fp(a) for a in argss]
     t0 = fp(orb.tle.__dict__)
     log = []
-    fns = [(lambda q=q, a=a: call(orb, q, a)) for q, a in zip(queries, argss)]
+    tstates = [None] * len(queries)
+
+    def mkfn(i, q, a):
+        def fn():
+            s0 = thread_state()                        # a new thread: numpy's / decimal's defaults
+            r = call(orb, q, a)
+            tstates[i] = (s0, thread_state())
+            return r
+        return fn
+    fns = [mkfn(i, q, a) for i, (q, a) in enumerate(zip(queries, argss))]
+    p0 = proc_state()
     fname = orbital.__file__
     if fname.endswith(".pyc"):
         fname = fname[:-1]
@@ -870,7 +1377,14 @@ def run_schedule(sat, queries, plan, spy=False, record_lines=False, warm=None):
     if spy:
         install_spy(orb, log, s.tid)
     res = s.run()
-    return {"results": res, "fps": [fp(r) for r in res], "log": log, "lines": s.lines, "linelog": s.linelog,
+    p1 = proc_state()
+    state = []
+    for i, ts in enumerate(tstates):
+        if ts is not None and ts[0] != ts[1]:
+            state.append((i, "state of thread %d changed by its query: %s" % (i, state_change_text(ts[0], ts[1]))))
+    if p1 != p0:
+        state.append((0, "state of the process changed while the threads ran: " + state_change_text(p0, p1)))
+    return {"results": res, "fps": [fp(r) for r in res], "log": log, "lines": s.lines, "linelog": s.linelog, "state": state,
             "args_ok": [fp(a) == b for a, b in zip(argss, a0)], "tle_ok": fp(orb.tle.__dict__) == t0,
             "cache": cache_of(orb), "cache0": cache0, "switches": s.switches}
 
@@ -921,6 +1435,9 @@ def judge_results(sat, queries, plan, r, on_violation, warm=None):
     if not r["tle_ok"]:
         bad = True
         on_violation("tle_modified", case, "Tle attributes changed", "Tle unchanged", "Orbital")
+    for i, text in r.get("state") or []:
+        bad = True
+        on_violation("process_state_modified", case, text, "process/thread state unchanged by a query", queries[i]["m"])
     return bad
 
 
@@ -1294,6 +1811,8 @@ def overlapping(ctx, sats, judge, budget, scale=1):
 # ---------------------------------------------------------------- protocol stages
 def spied_history(sat, hist):
     """A history on one object with the two slots observed; event 'thread' ids are positions in the history."""
+    _mods()
+    reinstate(BASE)
     orb = new_orbital(sat.tle)
     log = []
     cur = [0]
@@ -1306,6 +1825,7 @@ def spied_history(sat, hist):
         except _Timeout:
             res = Runaway("no result after 20 s")
         fps.append(fp(res))
+    reinstate(BASE)
     return fps, log, cache_of(orb)
 
 
@@ -1379,19 +1899,77 @@ def oracle(ctx):
     def drain():
         while PENDING:
             viol(*PENDING.pop(0))
+    clock = [time.time()]
+
+    def mark(name):
+        ctx.bump("oracle_stage_seconds", name, round(time.time() - clock[0], 1))
+        clock[0] = time.time()
+    mark("element sets")
     drain()
+    samples = []                                        # histories whose results are also compared with a child interpreter's
+    nsample = ctx.size(2, 6)
     # (1) histories
+    pools = {}
     for sat in sats:
-        pool = screen(sat, gen_pool(ctx.rng))
-        for _ in range(ctx.size(40, 400)):
+        pool = pools[sat.tle] = screen(sat, gen_pool(ctx.rng))
+        for k in range(ctx.size(40, 400)):
             if budget.over():
                 break
+            if k and k % 10 == 0:
+                # a new pool every 10 histories, alternately with all times within one revolution of one instant (the
+                # epoch or any other) and spread over days
+                centre = ctx.rng.choice([0, ctx.rng.randrange(-86400 * 10 ** 6, 86400 * 10 ** 6)]) if k % 20 == 10 else None
+                pool = screen(sat, gen_pool(ctx.rng, centre))
+                ctx.bump("history_pools", "times within 50 min of one instant" if centre is not None else "times spread over days")
             hist = gen_history(ctx.rng, pool)
-            run_history(sat, hist, viol, count=lambda: ctx.count("eval_history_query"))
+            got = [] if k < nsample else None
+            run_history(sat, hist, viol, count=lambda: ctx.count("eval_history_query"), got_out=got)
+            if got is not None:
+                samples.append((sat, hist, got))
             ctx.distinct((sat.tle[0][2:7], "h", tuple(qkey(q) for q in hist)))
             ctx.bump("history_length", len(hist))
             if len(ctx.violations) > 20:
                 return
+    mark("(1) histories")
+    # (1d) histories of pass searches that find passes, queries over grids with non-finite fill values, ordinary queries
+    budget = Budget(ctx, (6 if not ctx.intensified else 12) if quick else 40)
+    for sat in sats:
+        passes = [q for q in (pass_query(ctx.rng, sat) for _ in range(3)) if sat.fresh(q) is not None]
+        nonfinite = screen(sat, fill_queries(ctx.rng, NONFINITE) + fill_queries(ctx.rng, NONFINITE) + fill_queries(ctx.rng))
+        ctx.bump("state_history_pool", "pass searches that find passes", sum(1 for q in passes if has_passes(sat.fresh(q))))
+        for k in range(ctx.size(20, 200) * scale):
+            if budget.over():
+                break
+            hist = gen_state_history(ctx.rng, passes, nonfinite, pools[sat.tle])
+            got = [] if k < nsample else None
+            run_history(sat, hist, viol, count=lambda: ctx.count("eval_history_query"), got_out=got)
+            if got is not None:
+                samples.append((sat, hist, got))
+            ctx.distinct((sat.tle[0][2:7], "h", tuple(qkey(q) for q in hist)))
+            ctx.bump("history_length", len(hist))
+            if len(ctx.violations) > 20:
+                return
+    mark("(1d) state histories")
+    # a sample of those histories against reference results from an interpreter that no query has touched
+    begun = child_begin(samples)                        # (it works beside the next stages; collected below)
+    # (1e) the same query under different process environments (time zone, working directory, environment variables,
+    #      locale, decimal context, numpy print options and error modes)
+    budget = Budget(ctx, (8 if not ctx.intensified else 16) if quick else 60)
+    envs = gen_envs(ctx.rng)
+    base = {"tz": own_zone()}
+    for e in envs:
+        ctx.bump("process_environments", env_text(e))
+    for si, sat in enumerate(sats):
+        for q in gen_env_queries(ctx.rng, sat, full=(si == 0 or not quick)):
+            for env in envs:
+                if budget.over() or len(ctx.violations) > 20:
+                    break
+                run_env_case(sat.tle, q, env, base, viol, count=lambda: ctx.count("eval_environment_query"))
+            ctx.distinct((sat.tle[0][2:7], "e", qkey(q)))
+            ctx.bump("environment_queries", "%s(%s%s)" % (q["m"], {"py": "naive datetime", "pyutc": "aware UTC datetime",
+                                                                     "np": "datetime64", "arr": "datetime64 array"}[q["tk"]],
+                                                            "[%s]" % q["unit"] if q.get("unit") else ""))
+    mark("(1e) environments")
     # (1b) aliasing histories: one argument buffer re-used and changed in place between consecutive queries
     budget = Budget(ctx, (6 if not ctx.intensified else 15) if quick else 50)
     for sat in sats:
@@ -1405,7 +1983,12 @@ def oracle(ctx):
             for st in h["steps"]:
                 ctx.bump("alias_steps", "%s after %s" % (st["m"], "+".join(m["op"] for m in st["mut"]) or "no change"))
             if len(ctx.violations) > 20:
-                return
+                break
+    mark("(1b) aliasing")
+    compare_with_child(begun, viol, count=lambda: ctx.count("eval_untouched_interpreter_reference"), note=ctx.note)
+    mark("child interpreter references (waiting)")
+    if len(ctx.violations) > 20:
+        return
     budget = Budget(ctx, (30 if not ctx.intensified else 60) if quick else 330)
 
     # (2) schedules
@@ -1414,14 +1997,17 @@ def oracle(ctx):
         judge_results(sat, queries, plan, r, viol, warm)
         ctx.distinct((sat.tle[0][2:7], "s", tuple(qkey(q) for q in queries), json.dumps(plan)))
     concurrency(ctx, sats[:ctx.size(2, 6)], judge, spy=False, mode="full", budget=budget, scale=scale)
+    mark("(2) schedules")
     budget = Budget(ctx, 6 if quick else 40)
     for si, sat in enumerate(sats[:2]):
         free_running(ctx, sat, viol, ctx.size(10, 200), budget.share(2 - si))
     if len(ctx.violations) > 20:
         drain()
         return
+    mark("(2) free-running threads")
     # (2b) overlapping pass searches with different arguments; overlapping propagations for different times
     overlapping(ctx, sats[:ctx.size(2, 3)], judge, Budget(ctx, (14 if not ctx.intensified else 30) if quick else 90), scale=scale)
+    mark("(2b) overlapping")
     # (1c) histories whose queries differ in the representation (datetime, datetime64 unit) of the time argument
     budget = Budget(ctx, (5 if not ctx.intensified else 12) if quick else 30)
     for sat in sats:
@@ -1434,6 +2020,7 @@ def oracle(ctx):
             ctx.bump("history_length", len(hist))
             ctx.bump("first_orbit_number_time", next("%s%s" % (q["tk"], "[%s]" % q["unit"] if q.get("unit") else "")
                                                      for q in hist if is_orbit(q)))
+    mark("(1c) representations")
     drain()
     m = module_state()
     ctx.sample({"tles": [s.tle[0][2:7] for s in sats], "module_level_values_hashed": len(m)})
@@ -1466,7 +2053,10 @@ def _replay_one(inp, found, corr):
         print("history on one object (%d queries):" % len(inp["hist"]))
         for q in inp["hist"]:
             print("  ", qkey(q))
-        run_history(sat, inp["hist"], viol)
+        got = []
+        run_history(sat, inp["hist"], viol, got_out=got)
+        if not found:                                    # also against an interpreter that no query has touched
+            compare_with_child(child_begin([(sat, inp["hist"], got)]), viol)
         line, exp, bad, log = corr_history(sat, inp["hist"])
         print("  load/store events:", fmt_events(log))
         if bad:
@@ -1497,6 +2087,11 @@ def _replay_one(inp, found, corr):
             print("   caller:", ", ".join(json.dumps(m, sort_keys=True) for m in st.get("mut") or []) or "(no change)",
                   " then", st["m"], "" if st.get("normalize") is None else "normalize=%s" % st["normalize"])
         run_alias_history(sat, h, viol)
+    elif inp.get("kind") == "env":
+        print("one query on a fresh object under two process environments:")
+        print("  ", qkey(inp["q"]))
+        print("   {%s}  vs  {%s}" % (env_text(inp["base"]), env_text(inp["env"])))
+        run_env_case(tuple(inp["tle"]), inp["q"], inp["env"], inp["base"], viol)
     elif inp.get("kind") == "free":
         old = sys.getswitchinterval()
         sys.setswitchinterval(1e-6)
